@@ -172,6 +172,10 @@ func c09Case(origin, typ string, nlines int, prefixKnown string) *Case {
 			caseLabel = "_"
 		}
 		body := fmt.Sprintf("text %s {\n  poryswitch(%s) {\n    %s: \"unrelated$\"\n    %s: %s\n  }\n}", name.Placeholder(), key.Placeholder(), other.Placeholder(), caseLabel, txt)
+		if origin == "poryswitch-selected" {
+			// a typed default next to the selected case must not influence it
+			body = fmt.Sprintf("text %s {\n  poryswitch(%s) {\n    %s: braille\"unrelated$\"\n    %s: %s\n    _: ascii\"fallback\"\n  }\n}", name.Placeholder(), key.Placeholder(), other.Placeholder(), caseLabel, txt)
+		}
 		prog = &Program{Atoms: atoms, Tops: []interface{}{&TopRaw{Text: body}}}
 		label = func() interp.Value { return name.Val }
 		swKeys, swVals = []Tok{A(key)}, []Tok{A(val)}
@@ -243,6 +247,7 @@ func RunC09(env *Env, rep *Report) {
 			}
 		}
 	}
+	cases = append(cases, c09TwoArgsCase("ascii", ""), c09TwoArgsCase("", "braille"), c09TwoArgsCase("custom", ""), c09TwoArgsCase("braille", "ascii"))
 	cases = append(cases, c09PairCase("", "braille"), c09PairCase("braille", ""), c09PairCase("", "custom"), c09PairCase("ascii", "custom"))
 	rep.Technique = "symbolic execution of the real text parsing, terminator logic and text emission (go/ssa) with symbolic string contents; 'already terminated' decided by the SMT string theory (z3 seq)"
 	rep.Explanation = "Bounded symbolic verification, not a proof. Texts of up to the stated number of source lines (adjacent string literals), each line an arbitrary printable-ASCII string without a double quote (an SMT String variable), with no type prefix, ascii, braille and a symbolic custom type, coming from a text statement, an inline command argument and a poryswitch text case (selected and '_' fallback), are compiled by symbolic execution of the real code. strings.HasSuffix on the symbolic content is a solver-decided fork, so both 'already ends with the terminator' and 'does not' are covered for all contents. Asserted per path: the label is defined once; one directive per source line in order; directive = the type or 'string'; the lines are the source lines with exactly the terminator the type calls for appended to the last one unless the text already ends with it."
@@ -327,6 +332,69 @@ func c09PairCase(t1, t2 string) *Case {
 				return &Violation{Sub: "label", Msg: fmt.Sprintf("label %s of text %d is defined %d times", interp.ToString(lbls[i]), i+1, n)}
 			}
 			if v := expectLines(x, "text", fmt.Sprintf("text %d (type %q)", i+1, []string{t1, t2}[i]), got, want); v != nil {
+				return v
+			}
+		}
+		return nil
+	}
+	return cs
+}
+
+// c09TwoArgsCase: cmd(t1"a", t2"b") - two inline texts in ONE command, each
+// with its own type.
+func c09TwoArgsCase(t1, t2 string) *Case {
+	atoms := &AtomTable{Coded: true}
+	sname := atoms.New(ClsUserName, "script", "names")
+	c1 := atoms.New(ClsPlainCmd, "cmd", "cmds")
+	a, b := atoms.New(ClsLine, "txt", ""), atoms.New(ClsLine, "txt", "")
+	var custom *Atom
+	spell := func(t string) (string, func() interp.Value) {
+		if t == "custom" {
+			if custom == nil {
+				custom = atoms.New(ClsIdent, "strtype", "", "ascii", "braille")
+			}
+			return custom.Placeholder(), func() interp.Value { return custom.Val }
+		}
+		return t, func() interp.Value { return t }
+	}
+	s1, v1 := spell(t1)
+	s2, v2 := spell(t2)
+	src := fmt.Sprintf("script %s {\n  %s(%s\"%s\", %s\"%s\")\n}", sname.Placeholder(), c1.Placeholder(), s1, a.Placeholder(), s2, b.Placeholder())
+	prog := &Program{Atoms: atoms, Tops: []interface{}{&TopRaw{Text: src}}}
+	cs := &Case{Name: fmt.Sprintf("c09/two-args/%s/%s", t1, t2), Prog: prog, Variants: optVariants[:1], NonTrivial: true, Shape: c09Shape{Origin: "two-args", Type: t1 + "+" + t2, Lines: 1}, MaxPaths: 128}
+	cs.Oracle = func(x *OracleCtx) *Violation {
+		res := x.Res["opt"]
+		if res.Err.IsErr || res.Err.Panic != "" {
+			return &Violation{Sub: "accept", Msg: "rejected: " + interp.ToString(res.Err.Msg) + res.Err.Panic}
+		}
+		// the command line: "\tcmd L1, L2"
+		var l1, l2 interp.Value
+		for _, l := range nonBlank(outputLines(res.Out, false)) {
+			if rest, ok := trimPrefixLit(l, "\t"); ok {
+				if nm, args, ok := splitFirst(rest, " "); ok && sameValue(x.C, nm, c1.Val) == 1 {
+					if p, q, ok := splitFirst(args, ", "); ok {
+						l1, l2 = p, q
+					}
+				}
+			}
+		}
+		if l1 == nil {
+			return &Violation{Sub: "text", Msg: "the command does not carry two label arguments"}
+		}
+		for i, it := range []struct {
+			lbl  interp.Value
+			typ  func() interp.Value
+			text *Atom
+		}{{l1, v1, a}, {l2, v2, b}} {
+			got, n := sectionAfterLabel(x, res.Out, it.lbl)
+			if n != 1 {
+				// both texts may legitimately share one label when content and type coincide
+				if !(n == 1 || sameValue(x.C, l1, l2) == 1) {
+					return &Violation{Sub: "label", Msg: fmt.Sprintf("label of argument %d is defined %d times", i+1, n)}
+				}
+			}
+			want := c09Expect(x, it.typ(), []interp.Value{it.text.Val})
+			if v := expectLines(x, "text", fmt.Sprintf("argument %d (type %q)", i+1, []string{t1, t2}[i]), got, want); v != nil {
 				return v
 			}
 		}
